@@ -85,7 +85,7 @@ def allowance(a, b, deg, maxf, e_norm):
 
 class Acc:
     def __init__(self):
-        self.counts, self.ratio, self.fails, self.extra, self.sharp = {}, {}, {}, {}, {}
+        self.counts, self.ratio, self.fails, self.extra, self.sharp, self.samples = {}, {}, {}, {}, {}, {}
 
     def count(self, clause, n=1):
         self.counts[clause] = self.counts.get(clause, 0) + n
@@ -96,6 +96,9 @@ class Acc:
     def judge(self, semi, N, clause, err, tol, what, replay):
         """err, tol relative numbers; records err/tol, registers a failure when err > tol (or NaN)."""
         self.count(clause)
+        if clause not in ('nonneg', 'constant') and (semi, clause) not in self.samples and err > 0:
+            self.samples[(semi, clause)] = {'seminorm': semi, 'N': N, 'clause': clause, 'rel_err': float(err), 'tolerance': float(tol),
+                                            'case': replay}
         r = err / tol if tol > 0 else (0.0 if err == 0 else float('inf'))
         k = semi + ':' + clause
         if tol <= VACUOUS and r > self.ratio.get(k, 0.0):
@@ -119,7 +122,7 @@ class Acc:
         self.fails[key] = (float('inf'), what, replay, 1 if cur is None else cur[3] + 1)
 
     def result(self):
-        return {'counts': self.counts, 'ratio': self.ratio, 'fails': self.fails, 'extra': self.extra, 'sharp': self.sharp}
+        return {'counts': self.counts, 'ratio': self.ratio, 'fails': self.fails, 'extra': self.extra, 'sharp': self.sharp, 'samples': list(self.samples.values())}
 
 
 def build(N):
@@ -239,6 +242,9 @@ def flat_task(task):
                     et = abs(vt - v) / E
                     if vt == v:
                         acc.add('translation_bitwise')
+                    if (b - a) in (0.125, 1.0) and tau in (0.5, -4.0, 1024.0):
+                        acc.add('translation_dyadic_cases')
+                        acc.add('translation_dyadic_bitwise', 1 if vt == v else 0)
                     acc.judge(semi, N, 'translation', et, TOL + A + A2 + 4 * (deg + 1) * dh,
                               lambda: 'seminorm_{} N={} {}: on [{!r},{!r}] = {!r}, shifted by {} = {!r} (rel {:.3e})'.format(
                                   semi, N, P, a, b, v, tau, vt, et), dict(rp, tau=tau))
@@ -426,6 +432,7 @@ def run(ctx):
         tasks.append(('corner', (ci, ctx.tier)))
     results = common.pmap(_dispatch, tasks, ctx.jobs, chunksize=1)
     counts, ratio, fails, extra, sharp = {}, {}, {}, {}, {}
+    run_samples = {}
     per_kind = {'flat': 0, 'curve': 0, 'corner': 0}
     for (kind, _), r in zip(tasks, results):
         per_kind[kind] += sum(r['counts'].values())
@@ -435,6 +442,8 @@ def run(ctx):
             ratio[k] = max(ratio.get(k, 0.0), v)
         for k, v in r['sharp'].items():
             sharp[k] = sharp.get(k, 0) + v
+        for sm in r['samples']:
+            run_samples.setdefault((sm['seminorm'], sm['clause']), sm)
         _max_extra(extra, r['extra'])
         for k, v in r['fails'].items():
             cur = fails.get(k)
@@ -457,14 +466,9 @@ def run(ctx):
     kinds = {k.split(':', 1)[1]: v for k, v in extra.items() if k.startswith('corner_kind:')}
     if 're-entrant' not in kinds.values() or 'convex' not in kinds.values():
         raise common.HarnessError('corner enumeration lacks a convex or a re-entrant corner: {}'.format(kinds))
-    samples = [
-        {'clause': 'exact', 'N': 21, 'seminorm': 'h_1_4', 'interval': [-2.0, -2.0 + 7.3], 'polynomial': 'x^3 + x^10'},
-        {'clause': 'translation', 'N': 9, 'seminorm': 'h_1_2', 'interval': [100.0, 100.125], 'polynomial': 'x^4', 'tau': 0.1},
-        {'clause': 'curve-vs-flat', 'N': 13, 'interval': [0.0, math.pi], 'polynomial': 'x^2 + x^6', 'direction': [0.6, -0.8],
-         'origin': [100.0, -7.0]},
-        {'clause': 'corner', 'curve': 'LShape', 'corner': [0.0, 0.0], 'kind': kinds.get('LShape:0'), 'element_lengths': [0.5, 0.125],
-         'data': 'x^1 y^2', 'N': 15},
-    ]
+    samples = [run_samples[k] for k in sorted(run_samples)][:12]
+    if not samples:
+        raise common.HarnessError('no sample case recorded')
     cov = {
         'evaluations': int(sum(counts.values())),
         'distinct_nontrivial': int(counts.get('exact', 0) + counts.get('curve-vs-flat', 0) + counts.get('corner', 0)
@@ -498,7 +502,6 @@ def _dispatch(t):
 
 def replay(ctx, data):
     kind = data['kind']
-    acc = Acc()
     if kind == 'construct':
         try:
             build(data['N'])
@@ -510,13 +513,10 @@ def replay(ctx, data):
     if kind == 'flat':
         only = {'P': tuple(data['P'])} if 'P' in data else {'const': data.get('const')}
         r = flat_task((data['N'], [(data['a'], data['b'])], True, only))
-        want = data['semi']
     elif kind == 'curve':
         r = curve_task((data['N'], [(data['a'], data['b'])], tuple(data['P'])))
-        want = 'h_1_2_curve'
     else:
         r = corner_task((data['corner'], data.get('tier', 'quick')))
-        want = 'h_1_2_pw'
     bad = {k: v for k, v in r['fails'].items() if k[1] == data['N']}
     for k, v in sorted(bad.items(), key=lambda kv: str(kv[0])):
         print(k, '-', v[3], 'cases; worst:', v[1])
